@@ -39,7 +39,14 @@ Strict == [allDomains |-> TRUE,   \* a placed pod blocks / occupies EVERY domain
            exclude    |-> TRUE,   \* rescheduled / terminating / terminal pods do not count where they were
            matchKeys  |-> TRUE,   \* matchLabelKeys refine the spread selector
            minDomains |-> TRUE,   \* fewer eligible domains than minDomains: global minimum is 0
-           policies   |-> TRUE]   \* nodeAffinityPolicy / nodeTaintsPolicy decide which nodes' pods count
+           policies   |-> TRUE,   \* nodeAffinityPolicy / nodeTaintsPolicy decide which nodes' pods count
+           \* counterfactual switches, used ONLY to classify a failure into a narrow signature (never to pass a trace)
+           ignoreWidens |-> TRUE, \* nodeAffinityPolicy Ignore: the minimum ranges over ALL domains, not only the pod's own
+           dpod       |-> <<>>,   \* <<e>>: restrict the eligible domains with the FIRST required term of pod object e only
+           preferTaint |-> FALSE, \* nodeTaintsPolicy Honor also excludes nodes with an untolerated PreferNoSchedule taint
+           fpod       |-> <<>>,   \* <<q>>: decide node inclusion with the node selector / required terms / tolerations of pod q
+           since      |-> 0,      \* only the pods committed after position `since` of this pass are counted
+           undefSkips |-> FALSE]  \* a pod committed to a NodeClaim that left a key of the node filter undefined at that moment is not counted
 
 Fld(r, f, d) == IF f \in DOMAIN r THEN r[f] ELSE d
 MinS(S) == CHOOSE m \in S : \A x \in S : m <= x
@@ -78,6 +85,13 @@ Carries(q, s, p) == q.ns = p.ns /\ CarriesIdx(q, s, p) # {}
 PodAllowsKey(cfg, p, k, v) ==
     /\ (k \in DOMAIN p.sel => p.sel[k] = v)
     /\ (p.terms = <<>> \/ \E i \in DOMAIN p.terms : \A j \in DOMAIN p.terms[i] : p.terms[i][j].key = k => Admits(cfg, p.terms[i][j], (k :> v)))
+\* counterfactual: only the first required term of e counts
+FirstTermAllowsKey(cfg, e, k, v) ==
+    /\ (k \in DOMAIN e.sel => e.sel[k] = v)
+    /\ (e.terms = <<>> \/ \A j \in DOMAIN e.terms[1] : e.terms[1][j].key = k => Admits(cfg, e.terms[1][j], (k :> v)))
+AllowsKey(o, cfg, p, k, v) == IF o.dpod = <<>> THEN PodAllowsKey(cfg, p, k, v) ELSE FirstTermAllowsKey(cfg, o.dpod[1], k, v)
+TaintsOK(o, tols, taints) ==
+    \A t \in Range(taints) : (t.effect \in {"NoSchedule", "NoExecute"} \/ (o.preferTaint /\ t.effect = "PreferNoSchedule")) => \E x \in Range(tols) : Tolerates(x, t)
 NodeConstraintKeys(p) == DOMAIN p.sel \cup ExprKeys(p.terms)
 NodeAffHolds(cfg, p, L) == SelHolds(p.sel, L) /\ AnyTermHolds(cfg, p.terms, L)
 
@@ -109,18 +123,19 @@ ClaimLabellings(cfg, T, K) ==
 (* hi = possibly.  nodeAffinityPolicy Honor (default): only nodes matching p's node selector / required node affinity; *)
 (* nodeTaintsPolicy Honor: only nodes whose NoSchedule/NoExecute taints p tolerates (default Ignore).  The two answers *)
 (* differ for a NodeClaim whose labels are still open and for a not yet initialized node (startup / not-ready taints).  *)
-Inc(o, cfg, p, s, T) ==
+Inc(o, cfg, p0, s, T) ==
+    LET p == IF o.fpod = <<>> THEN p0 ELSE o.fpod[1] IN
     IF ~o.policies THEN [lo |-> TRUE, hi |-> TRUE]
     ELSE IF T.kind = "node"
     THEN IF ~KnownNode(cfg, T.node) THEN [lo |-> FALSE, hi |-> FALSE]
          ELSE LET n == NodeByName(cfg, T.node)
                   aff == s.affPol = "Ignore" \/ NodeAffHolds(cfg, p, NodeLabelling(n))
                   extra == IF n.stage \in {"registered", "appeared"} THEN n.startup \o (IF n.ephemeral THEN <<NotReadyTaint>> ELSE <<>>) ELSE <<>>
-                  t1 == s.taintPol # "Honor" \/ TaintsTolerated(p.tol, n.taints)
-                  t2 == s.taintPol # "Honor" \/ TaintsTolerated(p.tol, n.taints \o extra)
+                  t1 == s.taintPol # "Honor" \/ TaintsOK(o, p.tol, n.taints)
+                  t2 == s.taintPol # "Honor" \/ TaintsOK(o, p.tol, n.taints \o extra)
               IN [lo |-> aff /\ t1 /\ t2, hi |-> aff /\ (t1 \/ t2)]
     ELSE LET Ls == ClaimLabellings(cfg, T, NodeConstraintKeys(p))
-             tt == s.taintPol # "Honor" \/ TaintsTolerated(p.tol, PoolTaints(cfg, T.pool))
+             tt == s.taintPol # "Honor" \/ TaintsOK(o, p.tol, PoolTaints(cfg, T.pool))
          IN [lo |-> tt /\ (s.affPol = "Ignore" \/ \A L \in Ls : NodeAffHolds(cfg, p, L)),
              hi |-> tt /\ (s.affPol = "Ignore" \/ \E L \in Ls : NodeAffHolds(cfg, p, L))]
 
@@ -134,6 +149,10 @@ Running(o, W) ==
                                 /\ (o.exclude => PKey(q) \notin W.batch /\ ~Terminating(q) /\ ~TerminalPod(q))}
 Present(o, W) == Running(o, W) \cup {PodByKey(W.cfg, k) : k \in {x \in PlacedKeys(W) : KnownPod(W.cfg, x)}}
 Loc(W, q) == IF PKey(q) \in PlacedKeys(W) THEN W.tg[W.plc[PlcIdx(W, PKey(q))].tid] ELSE NodeT(q.node)
+\* the location of placed pod q as it was when q was committed (plc entries may carry it as field `at`)
+AtCommit(W, q) == LET e == W.plc[PlcIdx(W, PKey(q))] IN Fld(e, "at", W.tg[e.tid])
+UndefAtCommit(W, q, fp) == LET T == AtCommit(W, q) IN
+    T.kind = "claim" /\ \E k \in NodeConstraintKeys(fp) : k \in DOMAIN T.reqs /\ ~T.reqs[k].defined
 Others(o, W, p) == {q \in Present(o, W) : PKey(q) # PKey(p)}
 \* W without pod p's placement
 Without(W, p) == [W EXCEPT !.plc = SelectSeq(W.plc, LAMBDA e : e.pod # PKey(p))]
@@ -163,7 +182,7 @@ AffParts(o, W, p, x, t) ==
         Dx == TDom(cfg, x, k)
         cert(q, d) == IF o.certain THEN Loc(W, q).id = x.id \/ TDom(cfg, Loc(W, q), k) = {d}
                       ELSE Loc(W, q).id = x.id \/ d \in TDom(cfg, Loc(W, q), k)
-        reach(q) == \E v \in TDom(cfg, Loc(W, q), k) : PodAllowsKey(cfg, p, k, v)
+        reach(q) == \E v \in TDom(cfg, Loc(W, q), k) : AllowsKey(o, cfg, p, k, v)
     IN [haskey  |-> Dx # {},
         matched |-> \A d \in Dx : \E q \in M : cert(q, d),
         self    |-> TermMatches(cfg, t, p, p),
@@ -173,33 +192,6 @@ AffTermOK(o, W, p, x, t) ==
     LET a == AffParts(o, W, p, x, t) IN a.haskey /\ (a.matched \/ (a.self /\ (~o.bootstrap \/ a.lonely)))
 G_C02_Affinity(o, W, p, x) == \A i \in DOMAIN p.aff : AffTermOK(o, W, p, x, p.aff[i])
 
-(* G_C02_Spread: for every domain d the location may end up in: (pods certainly in d that count) + (1 if p matches its  *)
-(* own selector) - (global minimum) <= maxSkew.  Counted in d: running pods and earlier-placed carriers of the same     *)
-(* constraint whose location is certainly d and certainly takes part; the minimum is over the eligible domains D (the   *)
-(* universe U restricted to the values p's own node constraints admit, unless nodeAffinityPolicy is Ignore) of all      *)
-(* matching pods that are possibly there; it is 0 for hostname (a new node can always be created) and when fewer than   *)
-(* minDomains domains are eligible.                                                                                     *)
-SpreadParts(o, W, p, x, s, U) ==
-    LET cfg == W.cfg
-        k == s.key
-        R == Running(o, W)
-        P == {q \in Others(o, W, p) : SpreadMatches(o, s, p, q)}
-        inc == [q \in P |-> Inc(o, cfg, p, s, Loc(W, q))]
-        dom == [q \in P |-> TDom(cfg, Loc(W, q), k)]
-        sure == {q \in P : q \in R \/ Carries(q, s, p)}
-        lo(d) == Cardinality({q \in sure : dom[q] = {d} /\ inc[q].lo})
-        hi(d) == Cardinality({q \in P : d \in dom[q] /\ inc[q].hi})
-        Dx == TDom(cfg, x, k)
-        D == {e \in U : (o.policies /\ s.affPol = "Ignore") \/ PodAllowsKey(cfg, p, k, e)} \cup Dx
-        self == IF SpreadMatches(o, s, p, p) THEN 1 ELSE 0
-        mn == IF k = "host" \/ (o.minDomains /\ s.minDomains > 0 /\ Cardinality(D) < s.minDomains) THEN 0 ELSE MinS({hi(e) : e \in D})
-    IN [haskey |-> Dx # {}, dx |-> Dx, d |-> D, min |-> mn, self |-> self,
-        cnt |-> [d \in Dx |-> lo(d)], hi |-> [e \in D |-> hi(e)],
-        ok |-> Dx # {} /\ \A d \in Dx : lo(d) + self - mn <= s.maxSkew + o.slack]
-SpreadOK(o, W, p, x, s, U) == SpreadParts(o, W, p, x, s, U).ok
-DnsIdx(p) == {i \in DOMAIN p.spread : p.spread[i].when = "DoNotSchedule"}
-G_C02_Spread(o, W, p, x, Uof(_)) == \A i \in DnsIdx(p) : SpreadOK(o, W, p, x, p.spread[i], Uof(p.spread[i]))
-
 (* What the universe of (p, s) must at least contain, whatever Karpenter's policy adds (sanity guard of the logged      *)
 (* universe): the domain of every existing node that certainly takes part and is not on its way out, and every domain   *)
 (* a counted pod is certainly in.                                                                                       *)
@@ -208,7 +200,42 @@ ULow(o, W, p, s) ==
     UNION {IF ~n.marked /\ ~n.deleting /\ n.stage # "claimonly" /\ Inc(o, cfg, p, s, NodeT(n.name)).lo THEN TDom(cfg, NodeT(n.name), s.key) ELSE {}
            : n \in Range(cfg.nodes)}
     \cup UNION {LET D == TDom(cfg, Loc(W, q), s.key) IN IF Cardinality(D) = 1 THEN D ELSE {}
-                : q \in {r \in Others(o, W, p) : SpreadMatches(o, s, p, r) /\ (r \in Running(o, W) \/ Carries(r, s, p))}}
+                : q \in {r \in Others(o, W, p) : SpreadMatches(o, s, p, r) /\ (r \in Running(o, W) \/ Carries(r, s, p))
+                                                     /\ Inc(o, cfg, p, s, Loc(W, r)).lo}}
+
+(* G_C02_Spread: for every domain d the location may end up in: (pods certainly in d that count) + (1 if p matches its  *)
+(* own selector) - (global minimum) <= maxSkew.  Counted in d: running pods and earlier-placed carriers of the same     *)
+(* constraint whose location is certainly d and certainly takes part; the minimum is over the eligible domains D (the   *)
+(* universe U = UL (Karpenter's own, logged) + ULow restricted to the values p's own node constraints admit, unless nodeAffinityPolicy is Ignore) of all      *)
+(* matching pods that are possibly there (hostname: D = the nodes and NodeClaims that certainly take part); it is 0     *)
+(* when fewer than minDomains domains are eligible.                                                                     *)
+SpreadParts(o, W, p, x, s, UL) ==
+    LET cfg == W.cfg
+        k == s.key
+        U == UL \cup ULow(o, W, p, s)
+        R == Running(o, W)
+        P == {q \in Others(o, W, p) : SpreadMatches(o, s, p, q) /\ (o.since > 0 => q \in R \/ PlcIdx(W, PKey(q)) > o.since)
+                                        /\ (o.undefSkips => q \in R \/ ~UndefAtCommit(W, q, IF o.fpod = <<>> THEN p ELSE o.fpod[1]))}
+        inc == [q \in P |-> Inc(o, cfg, p, s, Loc(W, q))]
+        dom == [q \in P |-> TDom(cfg, Loc(W, q), k)]
+        sure == {q \in P : q \in R \/ Carries(q, s, p)}
+        lo(d) == Cardinality({q \in sure : dom[q] = {d} /\ inc[q].lo})
+        hi(d) == Cardinality({q \in P : d \in dom[q] /\ inc[q].hi})
+        Dx == TDom(cfg, x, k)
+        \* hostname: every domain is one node; the eligible ones are the nodes that certainly take part (Kubernetes has no
+        \* notion of "a node that could be created": Karpenter assuming a minimum of 0 is stricter and accepted)
+        HostD == {n.name : n \in {m \in Range(cfg.nodes) : m.stage # "claimonly" /\ ~m.marked /\ ~m.deleting /\ Inc(o, cfg, p, s, NodeT(m.name)).lo}}
+                 \cup {id \in DOMAIN W.tg : W.tg[id].kind = "claim" /\ Inc(o, cfg, p, s, W.tg[id]).lo}
+        D == (IF k = "host" THEN HostD
+              ELSE {e \in U : (o.policies /\ o.ignoreWidens /\ s.affPol = "Ignore") \/ AllowsKey(o, cfg, p, k, e)}) \cup Dx
+        self == IF SpreadMatches(o, s, p, p) THEN 1 ELSE 0
+        mn == IF o.minDomains /\ s.minDomains > 0 /\ Cardinality(D) < s.minDomains THEN 0 ELSE MinS({hi(e) : e \in D})
+    IN [haskey |-> Dx # {}, dx |-> Dx, d |-> D, min |-> mn, self |-> self,
+        cnt |-> [d \in Dx |-> lo(d)], hi |-> [e \in D |-> hi(e)],
+        ok |-> Dx # {} /\ \A d \in Dx : lo(d) + self - mn <= s.maxSkew + o.slack]
+SpreadOK(o, W, p, x, s, U) == SpreadParts(o, W, p, x, s, U).ok
+DnsIdx(p) == {i \in DOMAIN p.spread : p.spread[i].when = "DoNotSchedule"}
+G_C02_Spread(o, W, p, x, Uof(_)) == \A i \in DnsIdx(p) : SpreadOK(o, W, p, x, p.spread[i], Uof(p.spread[i]))
 
 ----------------------------------------------------------------------------
 (* END-STATE forms: W holds ALL placements of the pass; no commit order is needed (they work without hook H1).          *)
@@ -254,21 +281,54 @@ SigAnti(W, p, x, c) ==       \* c = <<term index, key of the other pod>>
 SigInv(W, p, x, c) ==        \* c = <<key of the owner, term index>>
     LET q == PodByKey(W.cfg, c[1]) IN
     "inverse:" \o q.anti[c[2]].key \o ":" \o x.kind \o "-vs-" \o KindOf(W, q) \o (IF Loc(W, q).id = x.id THEN ":same-target" ELSE "")
-SigAff(o, W, p, x, t) ==
-    LET a == AffParts(o, W, p, x, t) IN
-    "affinity:" \o t.key \o ":" \o x.kind \o
-    (IF ~a.haskey THEN ":target-lacks-key"
-     ELSE IF a.self /\ ~a.lonely THEN ":self-start-while-match-reachable"
-     ELSE IF a.any THEN (IF Cardinality(TDom(W.cfg, x, t.key)) > 1 THEN ":domain-undetermined" ELSE ":match-elsewhere")
-     ELSE ":no-match")
-SigSpread(o, W, p, x, s, U) ==
+SigAff(o, W, p, x, t, e) ==
+    LET a == AffParts(o, W, p, x, t)
+        M == {q \in Others(o, W, p) : TermMatches(W.cfg, t, p, q)}
+        reach == {q \in M : \E v \in TDom(W.cfg, Loc(W, q), t.key) : PodAllowsKey(W.cfg, p, t.key, v)}
+    IN
+    IF a.haskey /\ ~a.matched /\ a.self /\ ~a.lonely
+    THEN \* a second self-starter: classify the known causes narrowly
+         IF e # <<>> /\ Len(p.terms) > 1 /\ AffTermOK([o EXCEPT !.dpod = e], W, p, x, t) THEN "affinity:self-start:match-reachable-only-via-later-term"
+         ELSE IF \A q \in reach : PKey(q) \in PlacedKeys(W) /\ Cardinality(TDom(W.cfg, AtCommit(W, q), t.key)) > 1
+              THEN (IF \E q \in reach : \E j \in DOMAIN q.aff : TermMatches(W.cfg, q.aff[j], q, q) /\ q.aff[j].key = t.key
+                    THEN "affinity:self-start:earlier-self-starter-left-with-several-domains"
+                    ELSE "affinity:self-start:earlier-match-domain-undetermined")
+         ELSE "affinity:" \o t.key \o ":" \o x.kind \o ":self-start-while-match-reachable"
+    ELSE "affinity:" \o t.key \o ":" \o x.kind \o
+         (IF ~a.haskey THEN ":target-lacks-key"
+          ELSE IF a.any THEN (IF Cardinality(TDom(W.cfg, x, t.key)) > 1 THEN ":domain-undetermined" ELSE ":match-elsewhere")
+          ELSE ":no-match")
+(* Why did the spread guard fail?  Each known cause is a COUNTERFACTUAL: the failure disappears when exactly that        *)
+(* deviation from Kubernetes semantics is granted (e = the pod object Karpenter scheduled with, relaxations applied;    *)
+(* gmd = the minDomains values of the code's own groups for the constraint).  Anything else stays unclassified.         *)
+SpreadCause(o, W, p, x, s, U, e, gmd, owners) ==
+    LET relaxed == e # <<>> /\ (e[1].tol # p.tol \/ e[1].terms # p.terms)
+        mds == {m \in gmd : m # s.minDomains}
+        oth == {q \in {PodByKey(W.cfg, k) : k \in {y \in owners : KnownPod(W.cfg, y)}} : q.sel # p.sel \/ q.terms # p.terms \/ q.tol # p.tol}
+        c1 == \E m \in mds : SpreadOK(o, W, p, x, [s EXCEPT !.minDomains = m], U)
+        c2 == s.affPol = "Ignore" /\ SpreadOK([o EXCEPT !.ignoreWidens = FALSE], W, p, x, s, U)
+        c3 == e # <<>> /\ Len(p.terms) > 1 /\ SpreadOK([o EXCEPT !.dpod = e], W, p, x, s, U)
+        c4 == s.taintPol = "Honor" /\ SpreadOK([o EXCEPT !.preferTaint = TRUE], W, p, x, s, U)
+        c5 == relaxed /\ \E j \in DOMAIN W.plc : SpreadOK([o EXCEPT !.since = j], W, p, x, s, U)
+        c6 == \E q \in oth : SpreadOK([o EXCEPT !.fpod = <<q>>], W, p, x, s, U)
+        c7 == SpreadOK([o EXCEPT !.undefSkips = TRUE], W, p, x, s, U)
+        \* every deviation that applies, granted at once
+        oAll == [o EXCEPT !.ignoreWidens = FALSE, !.dpod = IF e # <<>> /\ Len(p.terms) > 1 THEN e ELSE <<>>, !.preferTaint = TRUE, !.undefSkips = TRUE]
+        call == \E m \in gmd \cup {s.minDomains} : \E j \in (IF relaxed THEN DOMAIN W.plc ELSE {}) \cup {0} :
+                    \/ SpreadOK([oAll EXCEPT !.since = j], W, p, x, [s EXCEPT !.minDomains = m], U)
+                    \/ \E q \in oth : SpreadOK([oAll EXCEPT !.since = j, !.fpod = <<q>>], W, p, x, [s EXCEPT !.minDomains = m], U)
+    IN IF c1 THEN ":minDomains-of-another-pods-constraint"
+       ELSE IF c2 THEN ":ignore-policy-minimum-over-own-domains"
+       ELSE IF c3 THEN ":minimum-over-first-term-only"
+       ELSE IF c4 THEN ":honor-excludes-prefer-no-schedule"
+       ELSE IF c5 THEN ":placements-forgotten-after-relaxation"
+       ELSE IF c6 THEN ":node-filter-of-another-pod"
+       ELSE IF c7 THEN ":claim-with-undefined-label-not-counted"
+       ELSE IF call THEN ":several-known-causes"
+       ELSE ""
+SigSpread(o, W, p, x, s, U, cause) ==
     LET a == SpreadParts(o, W, p, x, s, U) IN
-    "spread:" \o s.key \o ":" \o x.kind \o
-    (IF ~a.haskey THEN ":target-lacks-key"
-     ELSE IF Cardinality(a.dx) > 1 THEN ":domain-undetermined"
-     ELSE (IF s.minDomains > 0 /\ Cardinality(a.d) < s.minDomains THEN ":minDomains" ELSE "")
-          \o (IF s.matchKeys # <<>> THEN ":matchLabelKeys" ELSE "")
-          \o (IF s.affPol = "Ignore" THEN ":affinityPolicyIgnore" ELSE "")
-          \o (IF s.taintPol = "Honor" THEN ":taintsPolicyHonor" ELSE "")
-          \o (IF p.sel # <<>> \/ p.terms # <<>> THEN ":node-limited" ELSE ""))
+    IF cause # "" THEN "spread" \o cause
+    ELSE "spread:" \o s.key \o ":" \o x.kind \o
+         (IF ~a.haskey THEN ":target-lacks-key" ELSE IF Cardinality(a.dx) > 1 THEN ":domain-undetermined" ELSE ":unclassified")
 =============================================================================
